@@ -27,6 +27,10 @@ def run(ctx, rep):
     K.share(ctx, rep, "c15", lambda o: o.rule == "R15.1" or (o.rule == "R15.4" and "expired" in o.key), "R14.6", floor=3)
     rep.assume("the actual latency is not decided, only the ordering that causes the stall")
 
+    # the objects the hand-off relies on exist before the first serve(): one lock and one condition per connection, created by
+    # the constructor (a condition created lazily on first use can be created twice by two threads entering serve() together:
+    # the receiver then notifies one object while the waiter sleeps on the other)
+    K.connection_state(ctx, rep, "R14.4", ["_recvlock", "_recv_event"])
     from .c13 import blocking_lock_escape
     esc = blocking_lock_escape(ctx, rep, "R14.3")
     if not esc:
